@@ -61,6 +61,10 @@ VClauses(c) ==
       allok == ff.stage = "none"
   IN F("error_type", \E j \in DOMAIN c.stages : c.stages[j].cls \notin {"ok", "jaqal_error", "parse_error", "skipped"})
      \cup F("invalid_rejected", ~valid /\ allok /\ ~NegCount(Meaning(c.model, c.ovr)))
+     \* the parsed circuit handed to run_jaqal_circuit as it is (no override): the entry point applies its passes in
+     \* its own order, and an invalid program must be refused whatever that order is
+     \cup F("error_type", c.direct.cls \notin {"ok", "jaqal_error", "parse_error", "skipped"})
+     \cup F("invalid_rejected_direct", c.ovr = <<>> /\ ~valid /\ c.direct.cls = "ok" /\ ~NegCount(Meaning(c.model, <<>>)))
      \* the parser sees the declared values only: acceptance is demanded for pairs valid under both the
      \* declared and the overriding environment
      \* (aliases without elements are left open, see PassClauses!NoEmptyAlias)
